@@ -158,6 +158,49 @@ def gen_ops(rnd):
     ops += ['sync'] * depth
     return ops
 
+TABLES = ('byNameDirs', 'results', 'inputs', 'jenkins', 'dirStates', 'layerStates', 'buildState', 'variantIds', 'atticDirs', 'storagePath')
+
+def tables(st):
+    import copy
+    return {t: copy.deepcopy(getattr(st, '_BobState__' + t)) for t in TABLES}
+
+def mutator_calls(rnd):
+    """one random call of a state-changing API function (all of them): (description, callable(state))"""
+    p = rnd.choice(['dev/src/a/1/workspace', 'dev/build/b/1/workspace', 'dev/dist/c/1/workspace']); d = bytes([rnd.randint(1, 3)]) * 20; b = rnd.choice(['work/a/dist', 'work/b/src'])
+    C = [('setResultHash', lambda s: s.setResultHash(p, d)), ('setInputHashes', lambda s: s.setInputHashes(p, [d, d])), ('delInputHashes', lambda s: s.delInputHashes(p)),
+         ('setLayerState', lambda s: s.setLayerState('layers/' + p[:9], d)), ('delLayerState', lambda s: s.delLayerState('layers/' + p[:9])),
+         ('setDirectoryState', lambda s: s.setDirectoryState(p, {None: d})), ('delDirectoryState', lambda s: s.delDirectoryState(p)),
+         ('setVariantId', lambda s: s.setVariantId(p, d)), ('setStoragePath', lambda s: s.setStoragePath(p, '/elsewhere/' + p)),
+         ('resetWorkspaceState(None)', lambda s: s.resetWorkspaceState(p, None)), ('resetWorkspaceState(state)', lambda s: s.resetWorkspaceState(p, {None: d})),
+         ('setAtticDirectoryState', lambda s: s.setAtticDirectoryState('attic/' + p[:9], {'scm': 'git'})), ('delAtticDirectoryState', lambda s: s.delAtticDirectoryState('attic/' + p[:9])),
+         ('getByNameDirectory', lambda s: s.getByNameDirectory(b, d, 'src' in b)), ('setBuildState', lambda s: s.setBuildState({d: p})),
+         ('setJenkinsConfig', lambda s: s.setJenkinsConfig('j', {'url': 'x'})), ('delJenkins', lambda s: s.delJenkins('j'))]
+    return rnd.choice(C)
+
+def persistence_scenario(rnd, asynchronous):
+    """completed invocations only (no crash): whatever the in-memory tables hold when an invocation has finalized is what
+    the next invocation starts from -- every state-changing API call must reach the disk"""
+    import bob.state
+    base = tempfile.mkdtemp(prefix='c10p-'); old = os.getcwd(); os.chdir(base); log = []
+    try:
+        for inv in range(rnd.randint(2, 4)):
+            st = bob.state._BobState()
+            if inv > 0 and tables(st) != expect:
+                diff = [t for t in TABLES if tables(st)[t] != expect[t]]
+                return {'kind': 'completed-invocation-lost-an-update', 'tables': diff, 'history': log, 'asynchronous_section': asynchronous,
+                        'what': 'the state loaded by the next invocation is older than the state at the end of the last completed invocation'}
+            if asynchronous: st.setAsynchronous()
+            for _ in range(rnd.randint(1, 3) if inv else rnd.randint(3, 8)):
+                what, fn = mutator_calls(rnd)
+                try: fn(st); log.append(what)
+                except (KeyError, TypeError): log.append(what + ' (rejected)')
+            if asynchronous: st.setSynchronous()
+            expect = tables(st)
+            st.finalize(); log.append('finalize')
+        return None
+    finally:
+        os.chdir(old); shutil.rmtree(base, ignore_errors=True)
+
 def replay(rep):
     seed = int(os.environ.get('VERIF_SEED', '0') or 0)
     rnd = random.Random(seed)
@@ -170,5 +213,10 @@ def replay(rep):
     for ops in fixed + [gen_ops(rnd) for _ in range(int(os.environ.get('C10_REPLAY_N', '25')))]:
         tried += 1
         v = scenario(ops, rnd)
+        if v is not None: return {'reproduced': True, 'tried': tried, 'witness': v}
+    for i in range(int(os.environ.get('C10_PERSIST_N', '150'))):
+        tried += 1
+        try: v = persistence_scenario(rnd, asynchronous=(i % 3 == 0))
+        except Exception as ex: v = None; harness_problem = repr(ex)
         if v is not None: return {'reproduced': True, 'tried': tried, 'witness': v}
     return {'reproduced': False, 'tried': tried, 'detail': 'every crash image of every tried update sequence recovered a saved snapshot; lock held'}
